@@ -716,12 +716,33 @@ impl Check for C02 {
                 out.push(serde_json::to_value(Unit { level: l, max_occ: tier.pick(2, 3), values: values_small(), wrap: 0 }).unwrap());
             }
         }
+        // an adjacent group led by a valued item: `--x 1 --y 2`, `--x=1 --y=2` and their mixtures
+        // must mean the same (the group starts at the name whichever way the value is attached)
+        for w in [crate::checks::c19::W::Bare, crate::checks::c19::W::Opt, crate::checks::c19::W::Many] {
+            for v in [crate::checks::c19::V::Absent, crate::checks::c19::V::Before] {
+                out.push(json!({"argpair": crate::checks::c19::Def { g: crate::checks::c19::G::ArgPair, w, t: crate::checks::c19::T::None, v, len: tier.pick(5, 6) }}));
+            }
+        }
         for kind in 0..3 {
             out.push(json!({"dual": Dual { kind, len: tier.pick(5, 6) }}));
         }
         out
     }
     fn run_unit(&self, unit: &Value, ctx: &mut Ctx) {
+        if let Some(d) = unit.get("argpair") {
+            let d: crate::checks::c19::Def = serde_json::from_value(d.clone()).unwrap();
+            if let Ok(p) = build_checked(&crate::checks::c19::to_opts(&d)) {
+                let alpha = crate::checks::c19::alphabet_for(d.g);
+                tree(&alpha, d.len, &mut |argv| {
+                    ctx.begin_case(|| json!({"argv": argv}));
+                    ctx.s.evaluations += 1;
+                    ctx.s.states += 1;
+                    crate::checks::c19::judge_as("C02", &d, unit, &p, argv, ctx);
+                    true
+                });
+            }
+            return;
+        }
         if let Some(d) = unit.get("dual") {
             let d: Dual = serde_json::from_value(d.clone()).unwrap();
             run_dual(&d, unit, None, ctx);
@@ -741,6 +762,15 @@ impl Check for C02 {
         }
     }
     fn replay(&self, unit: &Value, case: &Value, ctx: &mut Ctx) {
+        if let Some(d) = unit.get("argpair") {
+            let d: crate::checks::c19::Def = serde_json::from_value(d.clone()).unwrap();
+            let argv: Vec<Tok> = serde_json::from_value(case["argv"].clone()).unwrap_or_default();
+            if let Ok(p) = build_checked(&crate::checks::c19::to_opts(&d)) {
+                ctx.s.evaluations += 1;
+                crate::checks::c19::judge_as("C02", &d, unit, &p, &argv, ctx);
+            }
+            return;
+        }
         if let Some(d) = unit.get("dual") {
             let d: Dual = serde_json::from_value(d.clone()).unwrap();
             let argv: Vec<Tok> = serde_json::from_value(case["argv"].clone()).unwrap_or_default();
@@ -769,7 +799,7 @@ impl Check for C02 {
         ctx.s.evaluations += c2.s.evaluations;
     }
     fn rule(&self) -> String {
-        "definitions = {4 name sets incl. 2-, 3- and 4-byte short names and non-ASCII longs} x {OsString, PathBuf, String, u32} x {plain, adjacent} x {required, optional, many, fallback, hidden optional, hidden many} in three shapes (two flags + argument; argument alone; three valued items with short names declared in descending / ascending / mixed order), the three-item shape also with the argument under every metadata-only decoration (displayed fallback, group_help, with_group_help, custom_usage, hide_usage) and below a sub-command; abstract sentences = all sequences of <= max_occ occurrences (flag | argument with each value of the byte-string alphabet); for each sentence EVERY concrete spelling is generated (--n v, --n=v, -n v, -n=v, -nv, every alias, every clustering of adjacent flags, clusters ending in the argument with =/attached/detached value) and run; plus one name declared twice (adjacent many + plain many in both declaration orders; adjacent optional + switch, the documented `--pkg=NAME` / bare `--pkg` idiom) over every vector of the token tree: the adjacent argument takes exactly the one-item spellings wherever they stand; evaluation = one spelling run; non-trivial = sentence with more than one spelling".into()
+        "definitions = {4 name sets incl. 2-, 3- and 4-byte short names and non-ASCII longs} x {OsString, PathBuf, String, u32} x {plain, adjacent} x {required, optional, many, fallback, hidden optional, hidden many} in three shapes (two flags + argument; argument alone; three valued items with short names declared in descending / ascending / mixed order), the three-item shape also with the argument under every metadata-only decoration (displayed fallback, group_help, with_group_help, custom_usage, hide_usage) and below a sub-command; abstract sentences = all sequences of <= max_occ occurrences (flag | argument with each value of the byte-string alphabet); for each sentence EVERY concrete spelling is generated (--n v, --n=v, -n v, -n=v, -nv, every alias, every clustering of adjacent flags, clusters ending in the argument with =/attached/detached value) and run; plus an adjacent group led by a valued item (--x X --y Y) with every mixture of attached and detached values, plus one name declared twice (adjacent many + plain many in both declaration orders; adjacent optional + switch, the documented `--pkg=NAME` / bare `--pkg` idiom) over every vector of the token tree: the adjacent argument takes exactly the one-item spellings wherever they stand; evaluation = one spelling run; non-trivial = sentence with more than one spelling".into()
     }
     fn bounds(&self, tier: Tier) -> Value {
         json!({"occurrences_per_sentence": "<=3 (<=2 for the lone repeated argument)", "values": tier.pick("6 values (14 for OsString lone argument)", "14 values everywhere"), "value_alphabet": values_full()})
